@@ -7,6 +7,8 @@ import (
 	"fmt"
 	"sort"
 	"strings"
+	gotime "time"
+	_ "time/tzdata" // zone rules compiled in: the TZ family must not depend on the machine
 
 	"github.com/jotaen/klog/klog"
 	"github.com/jotaen/klog/klog/app/cli"
@@ -15,6 +17,7 @@ import (
 	"github.com/jotaen/klog/klog/service/period"
 
 	"klogverif/clidrv"
+	"klogverif/docgen"
 	"klogverif/fw"
 	sm "klogverif/specmodel"
 )
@@ -354,7 +357,7 @@ func c13Combos(file int) [][]c13Clause {
 
 var c13ComboCache = map[int][][]c13Clause{}
 
-func c13Sizes() []int {
+func c13Sizes(t fw.Tier) []int {
 	var s []int
 	for f := range c13Files {
 		if c13ComboCache[f] == nil {
@@ -362,8 +365,9 @@ func c13Sizes() []int {
 		}
 		s = append(s, len(c13ComboCache[f]))
 	}
-	s = append(s, 1<<13+1<<14) // large-N sort family
-	s = append(s, c13BulkCount()) // enumerated documents x query matrix
+	s = append(s, 1<<13+1<<14)     // large-N sort family
+	s = append(s, c13BulkCount(t)) // enumerated documents x query matrix
+	s = append(s, c13TZCount())    // relative shortcuts under wall clocks in zones with daylight-saving transitions
 	return s
 }
 
@@ -375,16 +379,17 @@ func init() {
 			"--date/--since/--until/--after/--before for every record date +-1 and thinned pairs, --period for every year/month/quarter/ISO week containing or adjacent to a record date, " +
 			"all 14 relative shortcuts under clocks at every record date + {0,+-1,+-7,+-31,92,366} days, tag queries derived from the file's own tags (bare, other case, value unquoted/quoted/upper-cased/wrong, pairs) plus absent ones, 6 entry-type spellings; " +
 			"all pairs tag x type, date x tag and date x type (dates thinned 1/9) and triples (1/41); each also with --sort asc and desc on a fixed stride; plus ALL 2^13+2^14 date assignments of 13/14 records over two dates for the sort itself. " +
-			"plus BULK = every document of two records (dates {d, d+1} in the three orders same/ascending/descending; record summary in {none, #a, #b=1}; every sequence of <=2 of 6 entries with/without tags of all kinds) x a matrix of " + fmt.Sprint(len(c13BulkQueries())) + " queries (5 tag queries, 5 entry types, 4 date clauses, all tag x type pairs, date x tag x type triples, --sort), command struct on the real context. " +
+			"plus BULK = every document of two records (dates {d, d+1} in the three orders same/ascending/descending; record summary in {none, #a, #b=1}; every sequence of <=2 (thorough: <=3 in the first record) of 6 entries with/without tags of all kinds) x a matrix of " + fmt.Sprint(len(c13BulkQueries())) + " queries (5 tag queries, 5 entry types, 4 date clauses, all tag x type pairs, date x tag x type triples, --sort), command struct on the real context. " +
+			"plus TZ = the 11 relative shortcuts under wall clocks {0:00, 0:30, 12:00, 23:30, 23:59} on every day around the 2026 daylight-saving transitions of Europe/Berlin and America/New_York, in those zones, UTC, UTC+14 and UTC-11 (the calendar day is the clock's LOCAL day; a day is not always 24 hours long). " +
 			"A case = (file, flags, clock); distinct by that triple.",
 		Assumptions: []string{
 			"independent predicate on the reference denotation (specmodel parser, tag scanner, calendar); selection read back from `klog json` through klog.Run (real flag decoding) and compared field by field (C20's comparison)",
 			"one lower and one upper date bound at a time (klog documents override, not intersection, between e.g. --since and --after); `0m` counts as duration-positive (don't-care either way is not needed: the files avoid it for negative)",
 			"order among records of equal date under --sort is a don't-care",
 		},
-		Units: func(fw.Tier) int { return len(planSpans(c13Sizes(), 250)) },
+		Units: func(t fw.Tier) int { return len(planSpans(c13Sizes(t), 250)) },
 		RunUnit: func(c *fw.Ctx, unit int) {
-			sp := planSpans(c13Sizes(), 250)[unit]
+			sp := planSpans(c13Sizes(c.Tier), 250)[unit]
 			for i := sp.lo; i < sp.hi; i++ {
 				if sp.fam == len(c13Files) {
 					c13SortN(c, i)
@@ -392,6 +397,10 @@ func init() {
 				}
 				if sp.fam == len(c13Files)+1 {
 					c13Bulk(c, i)
+					continue
+				}
+				if sp.fam == len(c13Files)+2 {
+					c13TZ(c, i)
 					continue
 				}
 				c13Run(c, sp.fam, c13ComboCache[sp.fam][i], i)
@@ -406,11 +415,15 @@ func init() {
 				c13Bulk(c, cs.Now[0])
 				return
 			}
+			if cs.File == -3 {
+				c13TZ(c, cs.Now[0])
+				return
+			}
 			if cs.File < 0 {
 				c13SortN(c, cs.Now[0])
 				return
 			}
-			c13Sizes()
+			c13Sizes(c.Tier)
 			for i, combo := range c13ComboCache[cs.File] {
 				var args []string
 				now := [3]int{}
@@ -572,35 +585,50 @@ func c13SortN(c *fw.Ctx, i int) {
 	c.Outcome("sort-n")
 }
 
-
 // ---- BULK: enumerated two-record documents x a fixed query matrix (cli.Json struct on the real context)
 
 var c13BulkEntries = []string{"1h", "1h #a", "-30m #b=1", "8:00 - 9:00 #a #b=2", "9:00 - ?", "2h #B"}
 var c13BulkSummaries = []string{"", "#a\n", "note #b=1\n"}
 
-func c13BulkRecCount() int {
-	return len(c13BulkSummaries) * (1 + len(c13BulkEntries) + len(c13BulkEntries)*len(c13BulkEntries))
+// records with every sequence of <= maxLen entries (2, thorough: 3 for the first record)
+func c13BulkRecCount(maxLen int) int {
+	ne := len(c13BulkEntries)
+	n, p := 0, 1
+	for l := 0; l <= maxLen; l++ {
+		n += p
+		p *= ne
+	}
+	return len(c13BulkSummaries) * n
 }
 
-func c13BulkCount() int { return c13BulkRecCount() * c13BulkRecCount() * 3 }
+func c13BulkFirstLen(t fw.Tier) int {
+	if t == fw.Thorough {
+		return 3
+	}
+	return 2
+}
+
+func c13BulkCount(t fw.Tier) int { return c13BulkRecCount(c13BulkFirstLen(t)) * c13BulkRecCount(2) * 3 }
 
 func c13BulkRec(date string, k int) string {
 	ne := len(c13BulkEntries)
 	out := date + "\n" + c13BulkSummaries[k%len(c13BulkSummaries)]
 	k /= len(c13BulkSummaries)
-	switch {
-	case k == 0:
-	case k <= ne:
-		out += "    " + c13BulkEntries[k-1] + "\n"
-	default:
-		k -= ne + 1
-		out += "    " + c13BulkEntries[k/ne] + "\n    " + c13BulkEntries[k%ne] + "\n"
+	l, p := 0, 1
+	for k >= p { // sequences are numbered shortest first
+		k -= p
+		p *= ne
+		l++
+	}
+	for j := 0; j < l; j++ {
+		out += "    " + c13BulkEntries[k%ne] + "\n"
+		k /= ne
 	}
 	return out
 }
 
-func c13BulkDoc(i int) string {
-	n := c13BulkRecCount()
+func c13BulkDoc(t fw.Tier, i int) string {
+	n := c13BulkRecCount(c13BulkFirstLen(t))
 	order := i % 3
 	i /= 3
 	d1, d2 := "2021-03-31", "2021-04-01"
@@ -710,7 +738,7 @@ func c13BulkQueries() []c13BulkQuery {
 }
 
 func c13Bulk(c *fw.Ctx, i int) {
-	text := c13BulkDoc(i)
+	text := c13BulkDoc(c.Tier, i)
 	ref := sm.Parse(text)
 	if ref.Verdict != sm.Valid {
 		c.Outcome("bulk-invalid-doc") // two open ranges in one record
@@ -762,4 +790,108 @@ func c13Bulk(c *fw.Ctx, i int) {
 		}
 	}
 	c.Outcome("bulk")
+}
+
+// ---- TZ: relative shortcuts under local wall clocks, around daylight-saving transitions
+
+var c13TZZones = []string{"UTC", "Europe/Berlin", "America/New_York", "Pacific/Kiritimati", "Pacific/Pago_Pago"}
+var c13TZTimes = [][2]int{{0, 0}, {0, 30}, {12, 0}, {23, 30}, {23, 59}}
+var c13TZShortcuts = []string{"today", "yesterday", "tomorrow", "this-week", "last-week", "this-month", "last-month", "this-quarter", "last-quarter", "this-year", "last-year"}
+
+// days around 2026-03-08 / 2026-11-01 (US) and 2026-03-29 / 2026-10-25 (EU)
+func c13TZDays() []int {
+	var out []int
+	for _, c := range [][3]int{{2026, 3, 8}, {2026, 3, 29}, {2026, 10, 25}, {2026, 11, 1}} {
+		n := sm.DayNumber(sm.Date{Y: c[0], M: c[1], D: c[2]})
+		for d := n - 2; d <= n+2; d++ {
+			out = append(out, d)
+		}
+	}
+	return out
+}
+
+func c13TZCount() int {
+	return len(c13TZDays()) * len(c13TZZones) * len(c13TZTimes) * len(c13TZShortcuts)
+}
+
+func c13TZ(c *fw.Ctx, i int) {
+	days := c13TZDays()
+	d := docgen.Radix(i, len(days), len(c13TZZones), len(c13TZTimes), len(c13TZShortcuts))
+	n := days[d[0]]
+	loc, err := gotime.LoadLocation(c13TZZones[d[1]])
+	if err != nil {
+		harnessFatal("C13 TZ: zone %s not available: %v", c13TZZones[d[1]], err)
+	}
+	tm := c13TZTimes[d[2]]
+	sc := c13TZShortcuts[d[3]]
+	// the file: one record per day in the window (+-40 days covers last-month; the rest by the bounds check)
+	text := ""
+	for _, day := range days {
+		text += lit(day) + "\n    1h\n\n"
+	}
+	text += lit(n-35) + "\n    2h\n\n" + lit(n-100) + "\n    3h\n\n" + lit(n-370) + "\n    4h\n"
+	ref := sm.Parse(text)
+	if ref.Verdict != sm.Valid {
+		harnessFatal("C13 TZ document invalid")
+	}
+	nd := sm.FromDayNumber(n)
+	now := gotime.Date(nd.Y, gotime.Month(nd.M), nd.D, tm[0], tm[1], 0, 0, loc)
+	if y, m, dd := now.Date(); y != nd.Y || int(m) != nd.M || dd != nd.D {
+		harnessFatal("C13 TZ: %v is not on local day %v", now, nd)
+	}
+	ws, wu := sm.WeekBounds(n)
+	ms, mu := sm.MonthBounds(nd.Y, nd.M)
+	qs, qu := sm.QuarterBounds(nd.Y, sm.Quarter(nd.M))
+	ys, yu := sm.YearBounds(nd.Y)
+	pm := sm.FromDayNumber(ms - 1)
+	pms, pmu := sm.MonthBounds(pm.Y, pm.M)
+	pq := sm.FromDayNumber(qs - 1)
+	pqs, pqu := sm.QuarterBounds(pq.Y, sm.Quarter(pq.M))
+	pys, pyu := sm.YearBounds(nd.Y - 1)
+	var lo, hi int
+	fa := cliutil.FilterArgs{}
+	switch sc {
+	case "today":
+		lo, hi, fa.Today = n, n, true
+	case "yesterday":
+		lo, hi, fa.Yesterday = n-1, n-1, true
+	case "tomorrow":
+		lo, hi, fa.Tomorrow = n+1, n+1, true
+	case "this-week":
+		lo, hi, fa.ThisWeek = ws, wu, true
+	case "last-week":
+		lo, hi, fa.LastWeek = ws-7, ws-1, true
+	case "this-month":
+		lo, hi, fa.ThisMonth = ms, mu, true
+	case "last-month":
+		lo, hi, fa.LastMonth = pms, pmu, true
+	case "this-quarter":
+		lo, hi, fa.ThisQuarter = qs, qu, true
+	case "last-quarter":
+		lo, hi, fa.LastQuarter = pqs, pqu, true
+	case "this-year":
+		lo, hi, fa.ThisYear = ys, yu, true
+	case "last-year":
+		lo, hi, fa.LastYear = pys, pyu, true
+	}
+	want := c13Apply(ref.Records, []c13Clause{{kind: "date", recOK: between(lo, hi)}})
+	c.Eval(1)
+	c.Nontrivial(fw.HashMix(fw.HashString(sc+c13TZZones[d[1]]), uint64(i)+1<<41))
+	cs := c13Case{File: -3, Args: []string{"--" + sc, now.Format("2006-01-02 15:04 MST -0700")}, Now: [3]int{i, 0, 0}}
+	dir := fw.Scratch()
+	path := clidrv.WriteFile(dir, "c13tz.klg", text)
+	r := clidrv.Exec(clidrv.Home("home"), clidrv.Opts{Now: now}, &cli.Json{FilterArgs: fa, InputFilesArgs: fileArgs(path)})
+	if r.Panicked || r.Code != 0 {
+		c.Violation("filter-failed", cs, fmt.Sprintf("`klog json --%s` at %s failed: exit %d panic %v %s", sc, cs.Args[1], r.Code, r.PanicVal, r.Err))
+		return
+	}
+	if why := c20CheckRecords(strings.TrimSuffix(r.Stdout, "\n"), expectFromRef(want)); why != "" {
+		var got []string
+		for _, w := range want {
+			got = append(got, w.Date.String())
+		}
+		c.Violation("selection", cs, fmt.Sprintf("`klog json --%s` with the wall clock at %s: %s\nexpected the records dated %v\noutput: %s", sc, cs.Args[1], why, got, truncateStr(r.Stdout, 600)))
+		return
+	}
+	c.Outcome("tz")
 }
